@@ -157,7 +157,7 @@ def _case_alarm(_sig, _frm):
         raise canon.Hang(_case[0])
 
 
-def arm_case_timeout(what=None):
+def arm_case_timeout(what=None, seconds=None):
     """(re)start the per-case clock: a single case of a check takes milliseconds to seconds; one that
     has not come back after CASE_TIMEOUT_S is reported by main.py as non-termination"""
     import signal
@@ -169,7 +169,7 @@ def arm_case_timeout(what=None):
     if signal.getsignal(signal.SIGALRM) is not _case_alarm:
         signal.signal(signal.SIGALRM, _case_alarm)
     # repeating: the clean-up of the abandoned case (joins of threads that never end) is interrupted too
-    signal.setitimer(signal.ITIMER_REAL, CASE_TIMEOUT_S, 5)
+    signal.setitimer(signal.ITIMER_REAL, min(seconds or CASE_TIMEOUT_S, CASE_TIMEOUT_S), 5)
 
 
 def disarm_case_timeout():
@@ -180,12 +180,12 @@ def disarm_case_timeout():
         signal.setitimer(signal.ITIMER_REAL, 0)
 
 
-def gc_point(every=1, what=None):
+def gc_point(every=1, what=None, seconds=None):
     import gc
     import threading
     if gc.isenabled() or threading.current_thread() is not threading.main_thread():
         return
-    arm_case_timeout(what)
+    arm_case_timeout(what, seconds)
     _gc_n[0] += 1
     if _gc_n[0] % every == 0:
         gc.collect()
